@@ -223,9 +223,19 @@ def write_summary_file_vue(stats, filepath, year=2025, currency_format="${amount
         # Fallback: return cleaned up version of expression
         return filter_expr.replace('==', '=').replace('&&', ' and ').replace('||', ' or ')
 
-    # Helper function to create merchant IDs
+    # Helper function to create merchant IDs (unique per merchant name: "Joe's Diner"
+    # and "Joes Diner", or "A B" and "A_B", must not share an ID and overwrite each other)
+    merchant_ids = {}
+
     def make_merchant_id(name):
-        return name.replace("'", "").replace('"', '').replace(' ', '_')
+        if name not in merchant_ids:
+            base = name.replace("'", "").replace('"', '').replace(' ', '_')
+            candidate, n = base, 2
+            while candidate in merchant_ids.values():
+                candidate = f"{base}_{n}"
+                n += 1
+            merchant_ids[name] = candidate
+        return merchant_ids[name]
 
     # Build section merchants data
     def build_section_merchants(merchant_dict):
